@@ -260,6 +260,15 @@ def make_case(rng, with_faults):
             doc = {"config": {"sections": list(sections)}, **doc}
     if sections is None and "config" in doc:
         doc["config"].pop("sections", None)
+    # a sibling that a glob reading of the name would pick up instead (x[1]?.o matches x1z.o, star*.o matches starzz.o)
+    if any(ch in OBJ for ch in "*?["):
+        import re as _re
+        sib = _re.sub(r"\[(.)[^\]]*\]", r"\1", OBJ).replace("?", "z").replace("*", "zz")
+        if sib != OBJ and sib not in files:
+            dsrc, _dm2 = gen.gen_asm_source(rng)
+            dobj = gen.assemble(dsrc)
+            if dobj is not None:
+                files[sib] = dobj
     if rng.random() < 0.06:
         doc.setdefault("config", {})["style"] = "intel"
         shape["style"] = "intel"
@@ -348,6 +357,11 @@ def make_case(rng, with_faults):
         {"op": "match", "rule": RULE, "input": OBJ, "type": "binary", "ret": "list", "search": "all", "only_addr": only_addr, "_main": True},
         {"op": "match", "rule": RULE, "input": OBJ, "type": "binary", "ret": "bool", "search": "first", "_main": True},
     ]
+    if rng.random() < 0.08:
+        # variables a tool of this kind might look at (none is read today)
+        for m in main:
+            m["env"] = {"OBJDUMP": "/usr/bin/llvm-objdump", "JASM_STYLE": "intel", "JASM_SECTIONS": ".nope", "OBJDUMP_FLAGS": "-D", "LC_ALL": "C", "COLUMNS": "20"}
+        shape["env"] = True
     if with_faults and rng.random() < 0.5:
         f = rng.choice([
             {"kind": "rc", "code": 1, "stdout": "none", "label": "rc1_nostdout"},
